@@ -850,5 +850,5 @@ def run_histories(case, rec):
 
 def parts(ctx):
     return [Part('grid', run_grid, enumerate=grid_enum, exhaustive=True),
-            Part('members', run_members, strategy=member_values(), n=ctx.n(600, 8000), budget_s=ctx.n(120, 3000)),
+            Part('members', run_members, strategy=member_values(), n=ctx.n(1200, 10000), budget_s=ctx.n(120, 3000)),
             Part('histories', run_histories, strategy=object_histories(), n=ctx.n(1600, 20000), budget_s=ctx.n(120, 3000))]
